@@ -53,7 +53,12 @@ def client_of(kind, rng):
     if kind == "run_step_nobody":
         return {"kind": "run_step", "body": False}
     if kind == "run_steps":
-        return {"kind": "run_steps", "n": rng.choice([2, 3, 4])}
+        n = rng.choice([2, 3, 4])
+        st = rng.getstate()          # (round 14: a batch of ONE, decided by a peek that leaves every other draw of the case where it was)
+        if rng.random() < 0.3:
+            n = 1
+        rng.setstate(st)
+        return {"kind": "run_steps", "n": n}
     if kind == "stream":
         return {"kind": "stream", "chunks": None, "body": rng.random() < 0.7}
     if kind == "stream_disc":
